@@ -23,4 +23,54 @@ PROPS = {
             "8.8 signed wrapper: value() of a negative non-integer may be floor or truncation",
         ],
     },
+
+    "C01": {
+        "level": "exploration",
+        "profiles": ["chk", "rel"],
+        "death_is_violation": True,
+        "min_evals": {"quick": 5000, "thorough": 100000},
+        "rule": ("muxer call histories (add_track / write_sample / rejected write_sample / write_end) are executed against the real "
+                 "Mp4Writer and the output is read back with the real Mp4Reader and compared sample by sample (bytes, duration, "
+                 "rendering offset, sync, start time, count, ids past the end) with a sequential model; writer-state hook snapshots "
+                 "are checked after every call; histories with rejected calls are re-run without them and the outputs compared byte for byte. "
+                 "Strata: bounded-exhaustive (1-2 tracks, 54-symbol alphabet size{0,1,2} x delta{0,1,timescale} x cts{0,5,-5} x sync, all "
+                 "histories of length <= 2 quick / <= 3 thorough) and seeded random (1-5 tracks of all five media kinds, 0-400 samples, "
+                 "biased sizes/durations/offsets/timescales, four interleavings, lazily added tracks). A case is non-trivial when some track "
+                 "has >= 2 samples; distinct = distinct abstract shape (per track: media kind, sample-count bucket, #distinct sizes, #zero "
+                 "sizes, position of first non-zero offset, first sync / sync class, #chunk flushes, trailing partial chunk; #rejected calls)."),
+        "assumptions": [
+            "sequential model of the muxer API in harness/src/muxdrive.rs (a write is accepted iff its track id names a track added earlier)",
+            "histories whose converted track duration would not fit a 64-bit header field are outside the documented domain (they belong to C17)",
+            "both build profiles (overflow-checked and release) are exercised",
+        ],
+    },
+    "C02": {
+        "level": "exploration",
+        "profiles": ["chk"],
+        "death_is_violation": True,
+        "min_evals": {"quick": 5000, "thorough": 100000},
+        "rule": ("same history space as C01; every output is decoded by the independent decoder harness/src/refdec.rs (no library code): "
+                 "top-level tiling, ftyp first, exactly one moov and one mdat, strict container sizes, mdat size form and extent, per-track "
+                 "table expansion (stts/ctts/stsc/stsz/stss/stco|co64) against the model, chunk containment and pairwise disjointness, bytes at "
+                 "computed offsets, mdhd/tkhd/mvhd durations and versions. Non-trivial / distinct as for C01."),
+        "assumptions": [
+            "trusted base: harness/src/refdec.rs written from ISO/IEC 14496-12 (validated against the canned files and the reference encoder)",
+            "'within one tick' is read as: tkhd duration within [floor-1, ceil+1] of the exact rational sum*movie_ts/track_ts",
+        ],
+    },
+    "C14": {
+        "level": "exploration",
+        "profiles": ["chk"],
+        "death_is_violation": True,
+        "min_evals": {"quick": 3000, "thorough": 30000},
+        "rule": ("random Mp4Config/TrackConfig values over the documented domain followed by a short random sample history, plus the full "
+                 "46 x 13 x 7 AAC (object type, frequency index, channel configuration) grid and three-letter languages (every 7th quick, all "
+                 "26^3 thorough); mux, reopen with the real reader, compare every accessor with the configuration and the durations with the exact "
+                 "rational. Distinct = history shape as in C01 (non-trivial: >= 2 samples on a track)."),
+        "assumptions": [
+            "documented domain: timescales >= 1, SPS/PPS >= 4 bytes, lowercase three-letter languages, any brands/dimensions/bitrate",
+            "duration tolerance: one reported unit plus one tick of the header field it derives from (DESIGN 8.3)",
+            "random mode keeps AAC object types < 32 (known finding K1); the grid exercises them and attributes audio_profile mismatches for AOT >= 32 to K1 only",
+        ],
+    },
 }
